@@ -93,7 +93,8 @@ def c19(pid, tier, replay):
                     h.append({"op": "notify", "batch": [{"iface": "a", "changes": chs}]} if chs else {"op": "drain", "i": 1})
                 else:
                     h += [{"op": "notify", "batch": [{"iface": "a", "changes": [c]}]} for c in chs]
-                h += [{"op": "drain", "i": 1}, {"op": "notify", "batch": [{"iface": "a", "changes": [2, 2]}]}, {"op": "end"},
+                h += [{"op": "drain", "i": 1}] + ([{"op": "cancelctx"}, {"op": "sub", "iface": "a", "mask": 4}] if k % 2 else []) + \
+                     [{"op": "notify", "batch": [{"iface": "a", "changes": [2, 2]}]}, {"op": "drain", "i": 2}, {"op": "end"},
                       {"op": "sub", "iface": "a", "mask": 127}]
                 scen.append({"id": "C19-overflow-%02d-%d" % (k, burst), "h": h})
         # random long sequences
@@ -109,8 +110,10 @@ def c19(pid, tier, replay):
                     b = [{"iface": i, "changes": [1 << rng.randrange(7) for _ in range(rng.randrange(1, 5))]}
                          for i in rng.sample(["a", "b", "c"], rng.randrange(1, 3))]
                     h.append({"op": "notify", "batch": b})
-                elif r < 0.97:
+                elif r < 0.94:
                     h.append({"op": "drain", "i": rng.randrange(1, nsub + 1)})
+                elif r < 0.97:
+                    h.append({"op": "cancelctx"})       # the context is cancelled; watching goes on until the loop returns
                 else:
                     h.append({"op": "end"})
             scen.append({"id": "C19-rand-%05d" % j, "h": h, "enderr": ["", "", "other", "notexist"][j % 4]})
@@ -211,6 +214,18 @@ def c20(pid, tier, replay):
             sig = ["term", "hup", "int"][j % 3]
             scen.append({"kind": "serve", "id": "C20-sig-%04d" % j, "beh": ["run", "run", "slow"],
                          "h": [{"op": "ready", "i": 1}, {"op": "signal", "sig": sig}, {"op": "release", "i": 3}]})
+        # a task that takes long to stop (virtual time): Serve returns only after it, with the right result
+        n = 0
+        for ms in (100, 4000, 5001, 60000, 3600000):
+            for sig in ("term", "hup"):
+                scen.append({"kind": "serve", "bubble": True, "id": "C20-slowstop-%03d" % n, "beh": ["slow", "run"],
+                             "h": [{"op": "ready", "i": 1}, {"op": "ready", "i": 2}, {"op": "signal", "sig": sig},
+                                   {"op": "sleep", "ms": ms}, {"op": "release", "i": 1}]})
+                n += 1
+            for wrap in (False, True):
+                scen.append({"kind": "serve", "bubble": True, "id": "C20-slowstop-%03d" % n, "beh": ["slow", "fail", "run"], "failwrap": wrap,
+                             "h": [{"op": "ready", "i": 1}, {"op": "fail", "i": 2}, {"op": "sleep", "ms": ms}, {"op": "release", "i": 1}]})
+                n += 1
         # BuildTasks over all mixes of <= 3 interfaces x debug
         kinds = [(False, False), (True, False), (False, True)]
         n = 0
